@@ -13,7 +13,7 @@ def main():
     patch = os.path.join(seed, 'patch.diff')
     res = {'seed': seed, 'confirm': {}, 'checks': {}}
     if '--skip-confirm' not in sys.argv:
-        wt = '/tmp/seedverify'
+        wt = '/tmp/seedverify_%d' % os.getpid()
         sh('git -C /repo worktree remove --force %s' % wt)
         shutil.rmtree(wt, ignore_errors=True)
         r = sh('git -C /repo worktree add -q --detach %s HEAD' % wt)
